@@ -106,7 +106,7 @@ type ghost struct{ calls int }
 func (g *ghost) Run() error { g.calls++; return nil }
 
 type rspec struct {
-	Class int // 0 P, 1 O, 2 N, 3 lazy-unordered, 4 unordered + component post-processor, 5 unordered non-struct type, 6 unordered + factory post-processor
+	Class int // 0 P, 1 O, 2 N, 3 lazy-unordered, 4 unordered + component post-processor, 5 unordered non-struct type, 6 unordered + factory post-processor, 7 unordered + every other role as well
 	Ord   int
 }
 
@@ -141,7 +141,7 @@ func TestRunners(t *testing.T) {
 		ids := make([]int, nr)
 		initFaults := 0
 		for i := range specs {
-			specs[i].Class = rapid.IntRange(0, 6).Draw(t, "class")
+			specs[i].Class = rapid.IntRange(0, 7).Draw(t, "class")
 			if specs[i].Class < 2 {
 				specs[i].Ord = ordGen.Draw(t, "ord")
 			}
@@ -172,6 +172,10 @@ func TestRunners(t *testing.T) {
 				}
 			case 6:
 				c = &RunFPP{Core: zoo.Core{B: b}}
+			case 7:
+				// every role at once: runner, closer, component / factory post-processor, definition scanner
+				bb := b
+				c = &zoo.Sink{Core: zoo.Core{B: b}, RunHook: func() error { return run(bb) }}
 			default:
 				c = &RunLazy{zoo.Core{B: b}}
 			}
